@@ -93,14 +93,14 @@ def run(rep):
              'extendors in reverse, visits everything, extends the result with '
              'the leaf of the exact name; _uncached_subscriptions walks '
              'registry.ro in reverse (base registries first) over _subscribers',
-             floor=14)
+             floor=12)
     rep.rule('R07.2', 'leaf discipline: _addValueToLeaf appends at the end '
              '(None -> 1-tuple); _removeValueFromLeaf keeps, in order, exactly '
              'the items != to_remove (equality, all occurrences)', floor=2)
     rep.rule('R07.3', 'unsubscribe scope: value None -> (), else '
              '_removeValueFromLeaf(old, value); no write before the '
              'nothing-removed early return; only the exact leaf, emptied '
-             'ancestors and the provided count are written', floor=4)
+             'ancestors and the provided count are written', floor=6)
     rep.rule('R07.4', 'handler path: provided None -> extendors (None,); '
              'extendor count only touched when provided is not None', floor=3)
     rep.rule('R07.5', 'extendor transitions: add_extendor exactly when the '
@@ -116,11 +116,12 @@ def run(rep):
     rep.assume('resolution orders are those of C02/C03')
 
     # R07.1
+    from . import sem
     f = find_def(mod, '_subscriptions')
-    shared.check_collect_walker(rep, 'R07.1', f, 'extend')
+    sem.check_walkers(rep, 'R07.1', f, 'extend')
     us = find_def(mod, 'AdapterLookupBase._uncached_subscriptions')
-    lp = shared.check_registry_walk_collect(rep, 'R07.1', us, '_subscriptions',
-                                            '_subscribers')
+    sem.registry_walk_spec(rep, 'R07.1', us, '_subscriptions', '_subscribers', 'rev',
+                           False, ["''", '[]', '0', 'len(required)'], '[]')
     # R07.2
     f = find_def(mod, 'BaseAdapterRegistry._addValueToLeaf')
     ps = shared.params(f)
@@ -149,78 +150,10 @@ def run(rep):
               'returns %s' % [norm_src(r.value) for r in rets], node=f)
 
     # R07.3 unsubscribe
-    f = find_def(mod, 'BaseAdapterRegistry.unsubscribe')
-    site = 'BaseAdapterRegistry.unsubscribe'
-    cfg = cfg_of(f)
-    # `new` definitions
-    newdefs = [n for n in walk_local(f) if isinstance(n, ast.Assign)
-               and isinstance(n.targets[0], ast.Name) and n.targets[0].id == 'new']
-    ok = len(newdefs) == 2
-    detail = 'definitions of new: %s' % [norm_src(n) for n in newdefs]
-    if ok:
-        g = newdefs[0].parent
-        ok = isinstance(g, ast.If) and newdefs[1].parent is g
-        if ok:
-            envt = match('value is None', g.test)
-            envf = match('value is not None', g.test)
-            a, b = (g.body, g.orelse) if envt is not None else (g.orelse, g.body)
-            ok = (envt is not None or envf is not None) and \
-                any(match('new = ()', s, 'exec') is not None for s in a) and \
-                any(match('new = self._removeValueFromLeaf($old, value)', s, 'exec')
-                    is not None for s in b)
-            if ok:
-                old = [match('new = self._removeValueFromLeaf($old, value)', s, 'exec')
-                       for s in b]
-                old = [e for e in old if e][0]['old']
-                oldv = resolve_local(f, old)
-                ok = match("$c.get('')", oldv) is not None
-                detail = 'value None -> (); else _removeValueFromLeaf(%s, value) with %s = %s' % (
-                    norm_src(old), norm_src(old), norm_src(oldv))
-    rep.check('R07.3', site, ok, detail, construct='new', node=f)
-    # early return when nothing was removed, before any write
-    writes, D = shared.content_writes(f, ('_subscribers', '_provided'))
-    wnodes = [cfg.node_of(w) for w, k, c, v in writes]
-    early = [n for n in walk_local(f) if isinstance(n, ast.If)
-             and match('len(new) == len_old', n.test) is not None]
-    ok = len(early) == 1 and any(isinstance(s, ast.Return) for s in early[0].body)
-    if ok:
-        tnode = cfg.node_of(early[0].test)
-        before = cfg.reach(cfg.entry, include_start=True,
-                           avoid=lambda n: n is tnode)
-        ok = not any(w.id in before for w in wnodes)
-        lo = resolve_local(f, ast.Name(id='len_old', ctx=ast.Load()))
-        ok = ok and match('len($o)', lo) is not None
-    rep.check('R07.3', site, ok,
-              'returns without any storage write when len(new) == len_old '
-              '(nothing was removed)', construct='early-return', node=f)
-    # write targets
-    kinds = []
-    okw = True
-    for w, kind, cont, val in writes:
-        st = shared.stmt_of(w)
-        txt = norm_src(st).split('\n')[0]
-        if match("$c[''] = new", st, 'exec') is not None:
-            g = st.parent
-            okw = okw and isinstance(g, ast.If) and match('new', g.test) is not None \
-                and st in g.body
-            kinds.append('leaf-store')
-        elif match("del $c['']", st, 'exec') is not None:
-            kinds.append('leaf-delete')
-        elif match('del $c[$k]', st, 'exec') is not None or \
-                match('del byorder[-1]', st, 'exec') is not None:
-            kinds.append('prune')
-        elif match('del self._provided[provided]', st, 'exec') is not None or \
-                match('self._provided[provided] = $n', st, 'exec') is not None:
-            kinds.append('count')
-        else:
-            okw = False
-            kinds.append('OTHER:' + txt)
-    okw = okw and 'leaf-store' in kinds and 'leaf-delete' in kinds
-    rep.check('R07.3', site, okw, 'storage writes: %s' % sorted(set(kinds)),
-              construct='writes', node=f)
-    # the leaf written is the one reached by the descent over required+(provided,)
-    ok, detail = shared.descent_ok(f, '_subscribers')
-    rep.check('R07.3', site, ok, detail, construct='descent', node=f)
+    from . import mutators
+    mutators.unsubscribe_new(rep, 'R07.3', mod)
+    mutators.descent(rep, 'R07.3', mod, 'unsubscribe', '_subscribers')
+    mutators.descent(rep, 'R07.3', mod, 'subscribe', '_subscribers')
 
     # R07.4 handler path
     f = us
@@ -256,10 +189,10 @@ def run(rep):
                   '`provided is not None`', construct='count-guard', node=f)
 
     # R07.5
-    extendor_transitions(rep, 'R07.5', mod, 'register', 'add')
-    extendor_transitions(rep, 'R07.5', mod, 'subscribe', 'add')
-    extendor_transitions(rep, 'R07.5', mod, 'unregister', 'remove')
-    extendor_transitions(rep, 'R07.5', mod, 'unsubscribe', 'remove')
+    mutators.extendor_transitions(rep, 'R07.5', mod, 'register', 'add')
+    mutators.extendor_transitions(rep, 'R07.5', mod, 'subscribe', 'add')
+    mutators.extendor_transitions(rep, 'R07.5', mod, 'unregister', 'remove')
+    mutators.extendor_transitions(rep, 'R07.5', mod, 'unsubscribe', 'remove')
 
     # R07.6 invalidation of subscribe/unsubscribe
     from .C05 import inv1
